@@ -449,6 +449,23 @@ class Check(Property):
             if got != want:
                 v.append(f"C13 after a refused context activation, define('inch = 3 cm') and define('smoot13s = 5 s'): {got}; a registry that "
                          f"never saw the context: {want}")
+            # compatible-unit listings asked inside a context (which adds the units the context makes reachable) leave the
+            # listings outside the context as a fresh registry with the same definitions gives them
+            for first in ("smoot13b = 1.7018 * meter", "blink13 = 3 * hertz", None):
+                hist, plain_ = regs.fresh("float"), regs.fresh("float")
+                for r_ in (hist, plain_):
+                    r_.default_system = None
+                    if first:
+                        r_.define(first)
+                with hist.context("sp"):
+                    inside = {un: len(hist.get_compatible_units(un)) for un in ("meter", "hertz", "joule")}
+                    hist.Quantity(1.0, "meter").compatible_units(), hist.meter.compatible_units()
+                for un in ("meter", "hertz", "joule"):
+                    got = sorted(str(x) for x in hist.get_compatible_units(un))
+                    want = sorted(str(x) for x in plain_.get_compatible_units(un))
+                    if got != want:
+                        v.append(f"C13 after listing compatible units inside the context sp ({first or 'no definition'}): get_compatible_units({un!r}) has "
+                                 f"{len(got)} units outside the context, a registry that never entered it {len(want)} (inside: {inside[un]})")
             u = self.mkreg()
             with u.context("c13ctx"):
                 u.define("zork = 2 * meter")
